@@ -8,8 +8,9 @@
     on name, type, unit, help and every sample's name, label dict, value (numerically, NaN = NaN), timestamp (by denoted value
     to the nanosecond) and exemplar (label dict, value, timestamp).  The domain is rule-clean content: `rule_breaks()` is a
     Python copy of the C15 rules (from the property text) plus the structural conditions of the format (sample names within
-    the type's suffix set, one contiguous block per group, no repeated series at one timestamp, finite timestamps); content
-    breaking one of them is counted and skipped — the parser is obliged to reject it.
+    the type's suffix set, finite timestamps and values); content breaking one of them is counted and skipped — the parser is
+    obliged to reject it.  Content that breaks NO C15 rule but that the parser rejects for a rule of its own (PARSER_ONLY) is NOT
+    skipped: it is a round-trip failure on expressible content and is reported as C04:parser-only-rule:<class>.
 (b) converse.  Documents from `omgen.gen_document` and mutations of them that stay accepted (native-histogram samples
     skipped): parse → expose the parsed families → parse again gives the same families (values numerically, timestamps by
     denoted value).
@@ -27,6 +28,9 @@ the failure persists) and classified into exactly one signature:
                                              spelling — kept on the first parse (a Timestamp never equals a float), dropped on the second
     C04:exemplar-rendering                   a '"' in an exemplar label and the exposition line is NOT what the format asks for
     C04:label-name-unvalidated:<source>      F20 class (C03): a label name the library itself rejects reached the exposition
+    C04:parser-only-rule:<class>             content that breaks no C15 rule but that the library's own parser rejects (or changes):
+                                             negative-gsum-nonnegative-buckets, sum-with-negative-buckets, sum-without-count,
+                                             le-not-canonical, group-resumed, duplicate-series-same-timestamp
     C04:<what differs>                       anything else (never expected)
 T2: `expo om <families>` of the driver = the real bytes; `om parse` = the real parse (families or error class) on every
 exposition and on every document of (b); corecheck.run(ctx).
@@ -351,10 +355,34 @@ def show(s):
     return '%r %r %r ts=%r ex=%r' % (s.name, None if s.labels is None else dict(s.labels), s.value, s.timestamp, s.exemplar)
 
 
+PARSE_MSG = ['']        # message of the last ValueError the real parser raised (used for classification only)
+
+
 def real_parse_fams(text, legacy):
     from prometheus_client.openmetrics import parser as OP
     c14om.set_legacy(legacy)
-    return c14om.guarded(lambda: list(OP.text_string_to_metric_families(text)))
+    PARSE_MSG[0] = ''
+
+    def go():
+        try:
+            return list(OP.text_string_to_metric_families(text))
+        except ValueError as e:
+            PARSE_MSG[0] = str(e.args[0]) if e.args else ''
+            raise
+    return c14om.guarded(go)
+
+
+# content that breaks no C15 rule and is nevertheless rejected (or silently changed) by the library's own parser: rules the
+# parser enforces beyond the wording of C15.  Not skipped: reported as C04:parser-only-rule:<class>.  Attribution is by the
+# parser's own message (a failure with another cause is never filed here).
+PARSER_ONLY = {
+    'negative-gsum-nonnegative-buckets': 'Cannot have negative _gsum with non-negative buckets',
+    'sum-with-negative-buckets': 'Cannot have _sum with negative buckets',
+    'sum-without-count': ' must be present if _',             # _count … if _sum / _gcount … if _gsum (told apart from F17 below)
+    'le-not-canonical': 'Invalid le label',
+    'group-resumed': 'Invalid metric grouping',
+    'duplicate-series-same-timestamp': None,                  # no error: the repeated sample is dropped
+}
 
 
 def ref_escape(v):
@@ -390,6 +418,8 @@ def evaluate(spec):
                 except ValueError:
                     return {'skip': 'sample-name-rejected-by-Metric'}
         breaks = rule_breaks(metrics)
+        parser_only = [b[1:] for b in breaks if b[1:] in PARSER_ONLY]
+        breaks = [b for b in breaks if b[1:] not in PARSER_ONLY]
         if breaks:
             return {'skip': 'rule:' + breaks[0], 'metrics': metrics, 'breaks': breaks}
         try:
@@ -407,7 +437,7 @@ def evaluate(spec):
         fail = ('parse-raises-' + outcome[1], 'parsing the exposition raised %s in %s; expected the exposed families' % (outcome[1], outcome[2]))
     else:
         fail = cmp_families(metrics, outcome[1])
-    return {'metrics': metrics, 'text': text, 'outcome': outcome, 'fail': fail}
+    return {'metrics': metrics, 'text': text, 'outcome': outcome, 'fail': fail, 'parser_only': parser_only, 'msg': PARSE_MSG[0]}
 
 
 # ------------------------------------------------------------------------------------------------- minimise + classify
@@ -575,6 +605,16 @@ def classify(spec, res):
             for k in s.labels:
                 if k.startswith('__') or (legacy and not LEG_LABEL.fullmatch(k)):
                     return 'C04:label-name-unvalidated:' + f['src']
+    # rules the parser enforces beyond C15 (attributed by the parser's own message)
+    po = res.get('parser_only') or []
+    msg = res.get('msg') or ''
+    if cls.startswith('parse-raises-ValueError'):
+        for name in po:
+            pat = PARSER_ONLY[name]
+            if pat and pat in msg and not msg.startswith('_sum/_gsum must be present'):
+                return 'C04:parser-only-rule:' + name
+    if cls == 'sample-count' and 'duplicate-series-same-timestamp' in po and not exposed_ts_kinds(metrics):
+        return 'C04:parser-only-rule:duplicate-series-same-timestamp'
     # F18: a double quote in an exemplar label name or value, on a line the exposition rendered as the format asks
     quoted = [s for m in metrics for s in m.samples if s.exemplar is not None and
               any('"' in k or '"' in v for k, v in s.exemplar.labels.items())]
